@@ -128,7 +128,7 @@ func Supervise(o SupOpts) int {
 		}()
 	}
 	// watchdog: a run that makes no progress for hangS seconds is a hang
-	hangS := 120.0
+	hangS := 90.0
 	stopWatch := make(chan struct{})
 	go func() {
 		tick := time.NewTicker(time.Second)
@@ -171,6 +171,7 @@ func Supervise(o SupOpts) int {
 	trouble := []string{}
 	first, last := ^uint64(0), uint64(0)
 	stopped := map[string]int{}
+	confirmations := map[string]int{}
 	for _, w := range ws {
 		b, err := os.ReadFile(filepath.Join(work, fmt.Sprintf("w%d.json", w.k)))
 		if err != nil {
@@ -189,6 +190,13 @@ func Supervise(o SupOpts) int {
 			}
 			if w.lastRun < 0 {
 				trouble = append(trouble, fmt.Sprintf("worker %d died before its first run: %v\n%s", w.k, w.exitErr, w.stderr.String()))
+				continue
+			}
+			// confirming means re-executing the run alone (and minimising it);
+			// do that for the first two deaths of each kind only — sixteen
+			// workers dying of the same cause need not be confirmed sixteen times
+			confirmations[class]++
+			if confirmations[class] > 2 {
 				continue
 			}
 			vr, tr := confirmCrash(o, info, uint64(w.lastRun), class, replayDir, knownPath, work, w.stderr.String())
@@ -383,7 +391,7 @@ func workerCmd(exe string, args []string, memMB int) *exec.Cmd {
 
 func runReplayProcess(exe, path string, memMB int) (string, int) {
 	cmd := workerCmd(exe, []string{"replay", "-quiet", path}, memMB)
-	out, err := cmd.CombinedOutput()
+	out, err := runWithTimeout(cmd, 150*time.Second)
 	code := 0
 	if err != nil {
 		if ee, ok := err.(*exec.ExitError); ok {
@@ -414,7 +422,7 @@ func confirmCrash(o SupOpts, info core.Info, run uint64, class, replayDir, known
 	var err error
 	select {
 	case err = <-done:
-	case <-time.After(150 * time.Second):
+	case <-time.After(100 * time.Second):
 		cmd.Process.Kill()
 		<-done
 		err = fmt.Errorf("hang")
@@ -438,6 +446,18 @@ func confirmCrash(o SupOpts, info core.Info, run uint64, class, replayDir, known
 		Note: "seed-only replay: the process dies before a tape can be saved; replay re-executes the run from run_seed in a child process"}
 	// the journalled tape prefix up to the death, minimised by re-executing
 	// candidates in child processes (same class = the process dies again)
+	if jb, jerr := os.ReadFile(journal); jerr == nil && len(jb) >= 8 && class == "hang" {
+		// keep the journalled prefix as the tape (no minimisation: every
+		// candidate would cost a full timeout)
+		vals := make([]uint64, len(jb)/8)
+		for i := range vals {
+			for k := 0; k < 8; k++ {
+				vals[i] |= uint64(jb[8*i+k]) << (8 * uint(k))
+			}
+		}
+		rf.Tape, rf.Original = vals, len(vals)
+		rf.Note = "the process never finishes while executing this tape (journalled prefix up to the hang, not minimised); replay runs it in a child process with a 60 s limit"
+	}
 	if jb, jerr := os.ReadFile(journal); jerr == nil && len(jb) >= 8 && class == "crash" {
 		vals := make([]uint64, len(jb)/8)
 		for i := range vals {
